@@ -16,6 +16,11 @@ SCRIPTS = {
     'change-read': ['activate m', 'change m:_x 5', 'read m:_x'],
     'garbage-between': ['activate', 'frob x', '\xff\xfe', 'ping c'],
 }
+# a second scripted connection: its requests must not change the answers given to the first one's lines
+SCRIPTS2 = {
+    'tickets': (['do m:_take', 'ping a', 'do m:_take'], ['do m:_take', 'do m:_take']),
+    'ticket-vs-change': (['do m:_take', 'read m:_x'], ['change m:_x 5', 'do m:_take']),
+}
 OPS = [['assign', 'm', 'value', 1.5], ['assign', 'm', 'x', 7], ['assign', 'm', 'value', 2.5]]
 READS = {'m': {'x': [11, 12], 'value': [9.5, 8.5]}}
 
@@ -24,6 +29,8 @@ def cases(tier):
     res = []
     for name, script in SCRIPTS.items():
         res.append({'kind': 'conc', 'name': name, 'script': script, 'bound': 2 if tier == 'quick' else 3})
+    for name, (s1, s2) in SCRIPTS2.items():
+        res.append({'kind': 'conc', 'name': 'two:' + name, 'script': s1, 'script2': s2, 'nodriver': True, 'bound': 2 if tier == 'quick' else 3})
     return res
 
 
@@ -44,11 +51,17 @@ def execute(case, prefix):
         holder['sock'] = sock
         sched.begin()
         t1 = schedx.Thread(target=N.run_handler(node, sock), name='handler')
-        t2 = schedx.Thread(target=lambda: [N.driver_op(node, op) for op in OPS] + [done.append(1)], name='driver')
-        t1.start()
-        t2.start()
-        t1.join()
-        t2.join()
+        ops = [] if case.get('nodriver') else OPS
+        ts = [t1, schedx.Thread(target=lambda: [N.driver_op(node, op) for op in ops] + [done.append(1)], name='driver')]
+        if case.get('script2'):
+            sock2 = N.CoopSock(sched, 'c2', [l.encode('latin-1') + b'\n' for l in case['script2']], split_send=True,
+                               eof_when=lambda: bool(done))
+            holder['sock2'] = sock2
+            ts.append(schedx.Thread(target=N.run_handler(node, sock2), name='handler2'))
+        for t in ts:
+            t.start()
+        for t in ts:
+            t.join()
     x = sched.run(body)
     viol = judge(case, sched, x, holder)
     if holder.get('node') is not None:
@@ -88,6 +101,20 @@ def judge(case, sched, x, holder):
             replies.append(action)
     if len(replies) != len(case['script']):
         viol.append(('conc:reply-count', f'{len(case["script"])} request lines, replies {replies}'))
+    if holder.get('sock2') is not None:
+        # the tickets handed out over both connections are all different: no request saw the other one's half-done work
+        tickets = []
+        for sk, script in ((sock, case['script']), (holder['sock2'], case['script2'])):
+            lines = [g for g in b''.join(sk.out).split(b'\n') if g]
+            done_lines = [nodes.split_line(g) for g in lines]
+            tk = [d[2][0] for d in done_lines if d[0] == 'done' and d[1] == 'm:_take']
+            want = sum(1 for l in script if l == 'do m:_take')
+            if len(tk) != want:
+                viol.append(('conc:two-connections:command-replies-missing', f'{sk.label}: {want} take commands, replies {lines}'))
+            tickets += tk
+        if len(set(tickets)) != len(tickets):
+            viol.append(('conc:two-connections:requests-not-handled-one-at-a-time',
+                         f'tickets handed out {tickets}: two requests of different connections overlapped inside the command'))
     return viol
 
 
